@@ -159,23 +159,54 @@ def reqLine : Req → String
   | .createDrc => "create:DRC:default"
 
 /-- every request issued (attempted), in order, under the peer's interference `env` -/
-def issued {α : Type} (env : Env Store) (plan : Plan) (k : Nat) (p : Prog Req Resp α) (s : Store) : List Req :=
-  (callLogE sem env plan k p s).map (·.1)
+def issued {α : Type} (sm : Sem Store Req Resp) (env : Env Store) (plan : Plan) (k : Nat) (p : Prog Req Resp α) (s : Store) : List Req :=
+  (callLogE sm env plan k p s).map (·.1)
 
 /-- number of own applied requests that changed the store -/
-def changed {α : Type} (env : Env Store) (plan : Plan) (k : Nat) (p : Prog Req Resp α) (s : Store) : Nat :=
-  ((ownE sem env plan k p s).filter fun x => decide ((sem.exec x.1 x.2).1 ≠ x.1)).length
+def changed {α : Type} (sm : Sem Store Req Resp) (env : Env Store) (plan : Plan) (k : Nat) (p : Prog Req Resp α) (s : Store) : Nat :=
+  ((ownE sm env plan k p s).filter fun x => decide ((sm.exec x.1 x.2).1 ≠ x.1)).length
 
 /-- (store before, store after) of every action of the environment during the run -/
-def envSteps {α : Type} (env : Env Store) (plan : Plan) : Nat → Prog Req Resp α → Store → List (Store × Store)
+def envSteps {α : Type} (sm : Sem Store Req Resp) (env : Env Store) (plan : Plan) : Nat → Prog Req Resp α → Store → List (Store × Store)
   | _, .ret _, _ => []
   | k, .call r c, s =>
     (s, env k s) :: match plan k with
-    | .ok => envSteps env plan (k+1) (c (sem.exec (env k s) r).2) (sem.exec (env k s) r).1
-    | .fail => envSteps env plan (k+1) (c (sem.errResp .fail r)) (env k s)
-    | .conflict => envSteps env plan (k+1) (c (sem.errResp .conflict r)) (env k s)
+    | .ok => envSteps sm env plan (k+1) (c (sm.exec (env k s) r).2) (sm.exec (env k s) r).1
+    | .fail => envSteps sm env plan (k+1) (c (sm.errResp .fail r)) (env k s)
+    | .conflict => envSteps sm env plan (k+1) (c (sm.errResp .conflict r)) (env k s)
     | .crashBefore => []
     | .crashAfter => []
+
+/-- the class of the error a refused call of this run is answered with -/
+def errOf (rj : Json) : Err :=
+  if str rj "o" == "fail" then
+    match str rj "cls" with
+    | "notFound" => .notFound
+    | "alreadyExists" => .alreadyExists
+    | "conflictErr" => .conflict
+    | _ => .other
+  else .other
+
+def pkgOf (x : Json) : Pkg := ⟨pkindOf (str x "kind"), str x "name", str x "raw", refOf (obj x "ref"), jInt x "extra"⟩
+def crdOf (x : Json) : Crd := ⟨str x "name", jInt x "content", versOf x "versions", bool x "conv", blobOf (obj x "bundle"), strs x "stored", jInt x "extra"⟩
+def whcOf (x : Json) : Whc := ⟨wkindOf (str x "kind"), str x "name",
+  (arr x "hooks").map (fun h => ⟨str h "name", blobOf (obj h "bundle"), svcOf (obj h "svc")⟩), jInt x "extra"⟩
+
+def opOf (o : Json) : Option PeerOp :=
+  match str o "t" with
+  | "delSecret" => some (.delSecret (str o "name"))
+  | "putPkg" => some (.putPkg (pkgOf (obj o "pkg")))
+  | "delPkg" => some (.delPkg (pkindOf (str o "kind")) (str o "name"))
+  | "putCrd" => some (.putCrd (crdOf (obj o "crd")))
+  | "delCrd" => some (.delCrd (str o "name"))
+  | "putWhc" => some (.putWhc (whcOf (obj o "whc")))
+  | "delWhc" => some (.delWhc (wkindOf (str o "kind")) (str o "name"))
+  | "putCr" => let c := obj o "cr"; some (.putCr ⟨str c "crd", str c "name", jInt c "payload"⟩)
+  | "delCr" => some (.delCr (str o "kind") (str o "name"))
+  | "lock" => some (.setLock (if has o "n" then some (jInt o "n") else none))
+  | "sc" => some (.setSc (if has o "sc" then some (str (obj o "sc") "scope", jInt (obj o "sc") "extra") else none))
+  | "drc" => some (.setDrc (if has o "n" then some (jInt o "n") else none))
+  | _ => none
 
 def secretOf (x : Json) : Secret :=
   ⟨str x "name", blobOf (obj x "crt"), blobOf (obj x "key"), blobOf (obj x "ca"), jInt x "others", jInt x "meta"⟩
@@ -183,7 +214,7 @@ def secretOf (x : Json) : Secret :=
 /-- the peer writes of run number `i` -/
 def peersOf (scn : Json) (i : Nat) : List PeerWrite :=
   (arr scn "peer").filterMap fun p =>
-    if nat p "run" = i then some ⟨nat p "before", (arr p "secrets").map secretOf⟩ else none
+    if nat p "run" = i then some ⟨nat p "before", (arr p "secrets").map secretOf, (arr p "ops").filterMap opOf⟩ else none
 
 def imgObs (i : Img) : Json :=
   match i.ref with
@@ -247,26 +278,27 @@ def handler : Handler := fun scn =>
     let n := nat rj "nonce"
     let prog := runSteps stdGen steps n 0
     let env := peerEnv (peersOf scn idx)
-    let (s', r) := runE sem env plan 0 prog s
-    let log := (issued env plan 0 prog s).map reqLine
+    let sm := semK (errOf rj)
+    let (s', r) := runE sm env plan 0 prog s
+    let log := (issued sm env plan 0 prog s).map reqLine
     let (res, done) : String × Nat := match r with
       | none => ("crash", 0)
       | some (.ok, _, d) => ("ok", d)
       | some (.err _, _, d) => ("err", d)
-    let out := Json.mkObj [("res", .str res), ("done", .num (Lean.JsonNumber.fromNat done)), ("writes", .num (Lean.JsonNumber.fromNat (changed env plan 0 prog s))),
+    let out := Json.mkObj [("res", .str res), ("done", .num (Lean.JsonNumber.fromNat done)), ("writes", .num (Lean.JsonNumber.fromNat (changed sm env plan 0 prog s))),
       ("log", .arr (log.map Json.str).toArray), ("store", storeJson s')]
-    let own := ownE sem env plan 0 prog s
+    let own := ownE sm env plan 0 prog s
     -- (a) for every environment: no own call rewrites a secret that is protected at that moment
     let ownKeeps := own.all fun x => keptOk cas x.1 (sem.exec x.1 x.2).1
     -- the rely: the peer never rewrites a protected secret
-    let rely := (envSteps env plan 0 prog s).all fun x => keptOk cas x.1 x.2
+    let rely := (envSteps sm env plan 0 prog s).all fun x => keptOk cas x.1 x.2
     -- under the rely: protected secrets of the start are in place at the end, and (b) what we wrote chains to the stored CA
     let chains := match cas.eraseDups with
       | [ca] => own.all fun x => match x.2.writes with
           | some new => new.name == ca || !respOk (sem.exec x.1 x.2).2 || chainOk ca s' new
           | none => true
       | _ => true
-    let kept := ownKeeps && (!rely || (keptOk cas s s' && chains)) && (installCount steps != 1 || noSecondOk s s')
+    let kept := ownKeeps && (!rely || (keptOk cas s s' && chains)) && (installCount steps != 1 || !((peersOf scn idx).all fun w => w.ops.isEmpty) || noSecondOk s s')
     (outs ++ [out], s', okSoFar && kept, (if kept then why else "C20:model-property-false (kept material, own writes chain, or no-second-package)"), idx + 1)) ([], s0, true, "", 0)
   let out := Json.mkObj [("imgs", .arr (imgs.map imgObs).toArray), ("runs", .arr outs.toArray)]
   .ok (out, propOk, why)
